@@ -87,6 +87,9 @@ def rule_r22_partition(ctx, prog, rule="R22", body=None):
     """partition_mut: on return k, a[k] = pivot value, ∀x<k: a[x] < pv, ∀x>k: a[x] ≥ pv
        (with R4 – only swaps – k is then the number of elements strictly smaller than the pivot)"""
     b = body or prog.method("Sort1dExt", "partition_mut")
+    from .facts import inline_calls
+    from .rules_zones import helper_filter
+    b = inline_calls(prog, b, helper_filter(prog))
     pv_local, pidx = pivot_local_of(b)
     if pv_local is None:
         ctx.ob(rule, "partition_mut/pivot-value", False, b.where(), "anchor missing: `self[pivot_index].clone()` not found", what="anchor missing")
@@ -155,6 +158,9 @@ def rule_r21_compaction(ctx, prog, rule="R21", body=None):
     """generic remove_nan_mut: on every return the result is the prefix view[..x] with
        ∀k<x: ¬nan(view[k])  and  ∀k≥x: nan(view[k])   (with R4: the elements are a permutation of the input)"""
     b = body or prog.find("maybe_nan::remove_nan_mut")
+    from .facts import inline_calls
+    from .rules_zones import helper_filter
+    b = inline_calls(prog, b, helper_filter(prog))
     za = ZoneAnalysis(b, lambda st, z: None)
     za.run()
     sa = SegmentAnalysis(b, za, nan_pred)
